@@ -111,6 +111,12 @@ type gen struct {
 	pool    []string             // identifiers used so far in this file (source of near-colliding names)
 	pending []*srcDef            // definitions that must follow the one just generated (enum probes)
 	nearRef bool                 // pickAttr returned a name that nearly collides with a defined one
+	// a few spellings that are NO valid identifiers although the scanner reads each as one identifier token
+	// (a non-ASCII letter inside). They live for the whole run, across files: BA_ / BA_DEF_DEF_ accept them
+	// as (never validated) attribute names, the invalid-ident corruption puts them where an identifier is
+	// validated - the same name is met in an accepted and in a rejected role by different parses
+	oddNames []string
+	oddRef   bool
 }
 
 const identFirst = "ABCDEFGHIJKLMNOPQRSTUVWXYZabcdefghijklmnopqrstuvwxyz_"
@@ -1045,7 +1051,28 @@ func (g *gen) defEnumByName(name string, info *attrInfo, i int) *srcDef {
 	return d
 }
 
+func (g *gen) oddName() string {
+	if len(g.oddNames) < 6 {
+		b := g.freshIdent()
+		if len(b) > 10 {
+			b = b[:10]
+		}
+		l := []string{"\u00e9", "\u00f6\u00df", "\u0416", "\u00b5", "\u4e2d", "\u03a9"}[g.r.Intn(6)]
+		n := b + l
+		if g.r.Intn(2) == 0 {
+			n = b[:len(b)/2] + l + b[len(b)/2:]
+		}
+		g.oddNames = append(g.oddNames, n)
+		return n
+	}
+	return g.oddNames[g.r.Intn(len(g.oddNames))]
+}
+
 func (g *gen) pickAttr() (string, *attrInfo) {
+	if g.r.Intn(12) == 0 {
+		g.oddRef = true
+		return g.oddName(), nil // never defined (BA_DEF_ validates its name): the definition carries no value
+	}
 	if len(g.names) > 0 && g.r.Intn(6) == 0 {
 		// a name that matches no BA_DEF_ exactly but nearly collides with one (or with two, when a variant of
 		// that name is defined too): another capitalization, one character more / less / different
@@ -1072,8 +1099,11 @@ func (g *gen) pickAttr() (string, *attrInfo) {
 func (g *gen) defAttributeDefault() *srcDef {
 	d := &srcDef{kind: "attrdef"}
 	d.ident("BA_DEF_DEF_")
-	g.nearRef = false
+	g.nearRef, g.oddRef = false, false
 	name, info := g.pickAttr()
+	if g.oddRef {
+		d.tags = append(d.tags, "attr-reference-invalid-identifier")
+	}
 	if g.nearRef {
 		d.tags = append(d.tags, "attr-reference-near-collision")
 	}
@@ -1090,8 +1120,11 @@ func (g *gen) defAttributeDefault() *srcDef {
 func (g *gen) defAttributeValue() *srcDef {
 	d := &srcDef{kind: "attrval"}
 	d.ident("BA_")
-	g.nearRef = false
+	g.nearRef, g.oddRef = false, false
 	name, info := g.pickAttr()
+	if g.oddRef {
+		d.tags = append(d.tags, "attr-reference-invalid-identifier")
+	}
 	if g.nearRef {
 		d.tags = append(d.tags, "attr-reference-near-collision")
 	}
